@@ -25,6 +25,8 @@ type Failure struct {
 	Kind   string   `json:"kind"`
 	Trace  []int32  `json:"trace"`
 	Log    []string `json:"log"`
+	Sys    bool     `json:"sys,omitempty"`
+	Bound  int      `json:"bound,omitempty"`
 }
 
 type result struct {
@@ -38,7 +40,9 @@ func run(seed int64, trace []int32) *result {
 	r := rand.New(rand.NewSource(seed*1000003 + 41))
 	res := &result{}
 	var s *vs.Sched
-	if trace != nil {
+	if vs.SysBound >= 0 {
+		s = vs.NewSystematic(trace, vs.SysBound, 0)
+	} else if trace != nil {
 		s = vs.NewReplay(trace)
 	} else {
 		s = vs.New(seed*7919 + 13)
@@ -49,11 +53,17 @@ func run(seed int64, trace []int32) *result {
 	case 2:
 		s.Strat = vs.RoundRobin
 	}
+	if vs.SysBound >= 0 {
+		s.Strat, s.Spurious = vs.Systematic, false
+	}
 	vs.S = s
 	res.s = s
+	if vs.SysBound >= 0 {
+		s.MaxSteps = 1200 // value.go spins while another first store is in progress; without pre-emption budget left the spinner keeps the processor: inconclusive run
+	}
 	nw := 1 + r.Intn(2)
-	nr := 1 + r.Intn(3)
-	nops := 1 + r.Intn(3)
+	nr := vs.Cap(1+r.Intn(3), 2)
+	nops := vs.Cap(1+r.Intn(3), 2)
 	ptrMode := r.Intn(2) == 0 // store *T (pointer-shaped) or T (boxed value)
 	var v aval.Value
 	stored := map[int]bool{} // ids of values whose store has started
@@ -136,17 +146,22 @@ func run(seed int64, trace []int32) *result {
 }
 
 type Report struct {
-	Runs        int            `json:"runs"`
-	Distinct    int            `json:"distinct_schedules"`
-	Ops         int            `json:"operations"`
-	Steps       int            `json:"scheduler_steps"`
-	StepLimit   int            `json:"step_limit_inconclusive"`
-	Stuck       int            `json:"quiescent_allowed"`
-	ByKind      map[string]int `json:"runs_by_kind"`
-	Sites       map[string]int `json:"yield_sites"`
-	ClassCounts map[string]int `json:"failure_class_counts"`
-	Failures    []Failure      `json:"failures"`
-	Sample      []string       `json:"sample_log"`
+	Runs         int            `json:"runs"`
+	Distinct     int            `json:"distinct_schedules"`
+	Ops          int            `json:"operations"`
+	Steps        int            `json:"scheduler_steps"`
+	StepLimit    int            `json:"step_limit_inconclusive"`
+	Stuck        int            `json:"quiescent_allowed"`
+	ByKind       map[string]int `json:"runs_by_kind"`
+	Sites        map[string]int `json:"yield_sites"`
+	ClassCounts  map[string]int `json:"failure_class_counts"`
+	Failures     []Failure      `json:"failures"`
+	Sample       []string       `json:"sample_log"`
+	SysWorkloads int            `json:"sys_workloads"`
+	SysComplete  int            `json:"sys_workloads_enumerated_completely"`
+	SysTruncated int            `json:"sys_workloads_truncated"`
+	SysDiverged  int            `json:"sys_diverged_runs"`
+	SysMaxSched  int            `json:"sys_max_schedules_of_one_workload"`
 }
 
 func main() {
@@ -154,11 +169,16 @@ func main() {
 	n := flag.Int64("n", 1000, "number of runs")
 	out := flag.String("out", "", "report file")
 	replay := flag.String("replay", "", "failure file to replay")
+	sysb := flag.Int("sys", -1, "systematic leg: enumerate EVERY schedule with at most this many pre-emptions for each (small) workload")
+	maxruns := flag.Int("maxruns", 20000, "systematic leg: cap on schedules per workload")
 	flag.Parse()
 	if *replay != "" {
 		b, _ := os.ReadFile(*replay)
 		var f Failure
 		json.Unmarshal(b, &f)
+		if f.Sys {
+			vs.SysBound = f.Bound
+		}
 		res := run(f.Seed, f.Trace)
 		for _, l := range res.log {
 			fmt.Println(l)
@@ -175,10 +195,11 @@ func main() {
 		fmt.Println("REPLAY: recorded class not reproduced")
 		os.Exit(0)
 	}
+	vs.SysBound = *sysb
 	rep := Report{ByKind: map[string]int{}, Sites: map[string]int{}, ClassCounts: map[string]int{}}
 	seen := map[uint64]bool{}
-	for seed := *from; seed < *from+*n; seed++ {
-		res := run(seed, nil)
+	var seed int64
+	account := func(res *result) {
 		rep.Runs++
 		rep.ByKind["atomic.Value"]++
 		rep.Ops += res.ops
@@ -194,7 +215,7 @@ func main() {
 		}
 		if res.s.StepLim {
 			rep.StepLimit++
-			continue
+			return
 		}
 		if rep.Sample == nil && len(res.log) > 5 && len(res.fails) == 0 {
 			rep.Sample = res.log
@@ -209,8 +230,51 @@ func main() {
 			if rep.ClassCounts[f.Class] <= 3 {
 				f.Trace = res.s.Trace
 				f.Log = res.log
+				f.Sys, f.Bound = vs.SysBound >= 0, vs.SysBound
 				rep.Failures = append(rep.Failures, f)
 			}
+		}
+	}
+	for seed = *from; seed < *from+*n; seed++ {
+		one := func(tr []int32) *result { return run(seed, tr) }
+		if vs.SysBound < 0 {
+			account(one(nil))
+			continue
+		}
+		rep.SysWorkloads++
+		runs := 0
+		full := vs.SysBound
+		// iterative bounding: every schedule with <= 1 pre-emption first (always completes), then the full bound up to the cap
+	bounds:
+		for _, b := range []int{1, full} {
+			if b > full || (b == full && full == 1 && runs > 0) {
+				continue
+			}
+			vs.SysBound = b
+			var prefix []int32
+			for {
+				res := one(prefix)
+				runs++
+				if res.s.Diverged {
+					rep.SysDiverged++
+				}
+				account(res)
+				prefix = res.s.NextPrefix()
+				if prefix == nil {
+					if b == full {
+						rep.SysComplete++
+					}
+					break
+				}
+				if runs >= *maxruns {
+					rep.SysTruncated++
+					break bounds
+				}
+			}
+		}
+		vs.SysBound = full
+		if runs > rep.SysMaxSched {
+			rep.SysMaxSched = runs
 		}
 	}
 	rep.Distinct = len(seen)
